@@ -86,6 +86,7 @@ func TestC28Decision(t *testing.T) {
 	s := newSUT()
 	rapid.Check(t, func(t *rapid.T) {
 		c := genCase(t)
+		rec.Excluded(excludeKnown(&c))
 		ref := refDecide(c)
 		rec.Case(nontrivial(c, ref), c.String(), caseLabels(c, ref)...)
 		if rec.WantSample() && ref.MatchedRecord {
@@ -100,6 +101,9 @@ func TestC28Decision(t *testing.T) {
 			return
 		}
 		if isSearchCIDClass(c, ref) && rec.Known(fpSearchCID) {
+			return
+		}
+		if isBinXHdrClass(c) && got.Stage != "bearer-verify" && rec.Known(fpBinXHdr) {
 			return
 		}
 		kind := "over-restrictive (reference allows, node denies)"
